@@ -11,7 +11,7 @@ HarnessError (never a silent wrong answer).  Needles searched for must not conta
 """
 from __future__ import annotations
 
-from vf import HarnessError
+from vf import CONCRETE, HarnessError
 
 FILL_BYTE = b"a"
 
@@ -79,6 +79,22 @@ def _is_real_bytes(s):
         return type(s) is bytes
     with NoTracing():
         return type(s) is bytes
+
+
+def _seg_rfind(s, needle):
+    if _is_real_bytes(s):
+        return s.rfind(needle)
+    n = len(s)
+    m = len(needle)
+    for j in range(n - m, -1, -1):
+        hit = True
+        for q in range(m):
+            if s[j + q] != needle[q]:
+                hit = False
+                break
+        if hit:
+            return j
+    return -1
 
 
 def _seg_find(s, needle):
@@ -158,9 +174,85 @@ class SymBuf(bytes):
     def startswith(self, prefix, *a):
         if a:
             raise HarnessError("startswith with bounds")
+        if isinstance(prefix, tuple):
+            for q in prefix:
+                if self.startswith(q):
+                    return True
+            return False
         n = len(prefix)
+        if n > self.__len__():
+            return False
         head = self[:n]
         return head.concrete_if_plain() == bytes(prefix)
+
+    def endswith(self, suffix, *a):
+        if a:
+            raise HarnessError("endswith with bounds")
+        if isinstance(suffix, tuple):
+            for q in suffix:
+                if self.endswith(q):
+                    return True
+            return False
+        n, total = len(suffix), self.__len__()
+        if n > total:
+            return False
+        tail = self[total - n:]
+        return tail.concrete_if_plain() == bytes(suffix)
+
+    def index(self, needle, *a):
+        i = self.find(needle, *a)
+        if i < 0:
+            raise ValueError("subsection not found")
+        return i
+
+    def _rfind(self, needle):
+        if FILL_BYTE in bytes(needle):
+            raise HarnessError("needle contains the filler byte")
+        ends = []
+        off = 0
+        for s in self.segs:
+            ends.append(off)
+            off = off + (s.n if _is_fill(s) else len(s))
+        for s, start in zip(reversed(self.segs), reversed(ends)):
+            if _is_fill(s):
+                continue
+            i = _seg_rfind(s, needle)
+            if i >= 0:
+                return start + i
+        return -1
+
+    def rfind(self, needle, *a):
+        if a:
+            raise HarnessError("rfind with bounds")
+        return self._rfind(needle)
+
+    def rindex(self, needle, *a):
+        i = self.rfind(needle, *a)
+        if i < 0:
+            raise ValueError("subsection not found")
+        return i
+
+    def partition(self, sep):
+        i = self._find(sep)
+        if i < 0:
+            return (self, b"", b"")
+        a, rest = self.cut(i)
+        s, b = rest.cut(len(sep))
+        return (a, bytes(sep), b)
+
+    def rpartition(self, sep):
+        i = self._rfind(sep)
+        if i < 0:
+            return (b"", b"", self)
+        a, rest = self.cut(i)
+        s, b = rest.cut(len(sep))
+        return (a, bytes(sep), b)
+
+    def removeprefix(self, prefix):
+        return self[len(prefix):] if self.startswith(prefix) else self
+
+    def removesuffix(self, suffix):
+        return self[:self.__len__() - len(suffix)] if (len(suffix) and self.endswith(suffix)) else self
 
     # ---- cutting ----------------------------------------------------------------------
     def cut(self, k):
@@ -187,15 +279,22 @@ class SymBuf(bytes):
                 done = True
         return SymBuf(left), SymBuf(right)
 
-    def split(self, sep, maxsplit=-1):
-        if maxsplit != 1:
-            raise HarnessError("split only with maxsplit=1")
-        i = self._find(sep)
-        if i < 0:
-            return [self]
-        a, rest = self.cut(i)
-        _, b = rest.cut(len(sep))
-        return [a, b]
+    def split(self, sep=None, maxsplit=-1):
+        if sep is None:
+            raise HarnessError("whitespace split of a SymBuf")
+        out, rest, k = [], self, 0
+        while maxsplit < 0 or k < maxsplit:
+            if type(rest) is not SymBuf:
+                break
+            i = rest._find(sep)
+            if i < 0:
+                break
+            a, tail = rest.cut(i)
+            _, rest = tail.cut(len(sep))
+            out.append(a)
+            k += 1
+        out.append(rest)
+        return out
 
     def __getitem__(self, sl):
         if not isinstance(sl, slice) or sl.step is not None:
@@ -301,6 +400,27 @@ class SymBuf(bytes):
     def __iter__(self):
         raise HarnessError("iteration over SymBuf")
 
+    def __bytes__(self):
+        return self.concrete()
+
+
+def _unsupported(name):
+    def f(self, *a, **k):
+        raise HarnessError("bytes.%s is not modelled by SymBuf" % name)
+    f.__name__ = name
+    return f
+
+
+# every other bytes method would silently operate on the empty placeholder value: refuse instead
+for _name in dir(bytes):
+    if _name in SymBuf.__dict__:
+        continue
+    if _name.startswith("__") and _name not in ("__mul__", "__rmul__", "__mod__", "__rmod__", "__lt__", "__le__", "__gt__",
+                                                "__ge__", "__reversed__"):
+        continue
+    setattr(SymBuf, _name, _unsupported(_name))
+del _name
+
 
 class FillStr(str):
     """``str`` produced by SymBuf.decode: content shows 3 filler characters per Fill, but
@@ -334,6 +454,54 @@ class TextBody(str):
 
     def encode(self, enc="utf-8", errors="strict"):
         return self.buf
+
+
+class RealBuf(bytes):
+    """Concrete replays do not go through the SymBuf model at all: the buffer is a real ``bytes`` value (every Fill
+    expanded), so nauyaca's stream code runs on exactly what it would see in production and a counterexample that only
+    exists because the model of ``bytes`` differs from ``bytes`` cannot reproduce.  Only the helpers the harnesses call
+    on their own buffers (cut, same_as, segs, ...) are added; concatenation keeps the helper type."""
+
+    def __new__(cls, segs=()):
+        out = b""
+        for s in _flatten(list(segs)):
+            out += (FILL_BYTE * int(s.n)) if _is_fill(s) else bytes(s)
+        return bytes.__new__(cls, out)
+
+    def __init__(self, segs=()):
+        pass
+
+    @property
+    def segs(self):
+        return [bytes(self)] if len(self) else []
+
+    def total(self):
+        return len(self)
+
+    def __add__(self, o):
+        return RealBuf([bytes(self), o])
+
+    def __radd__(self, o):
+        return RealBuf([o, bytes(self)])
+
+    def cut(self, k):
+        k = int(k)
+        return RealBuf([bytes(self)[:k]]), RealBuf([bytes(self)[k:]])
+
+    def concrete(self):
+        return bytes(self)
+
+    concrete_if_plain = concrete
+
+    def same_as(self, other) -> bool:
+        return bytes(self) == bytes(other)
+
+    def __repr__(self):
+        return "RealBuf(%r)" % (bytes(self)[:80],)
+
+
+if CONCRETE:
+    SymBuf = RealBuf            # noqa: F811
 
 
 def mk(*parts):
